@@ -811,6 +811,8 @@ def mk_fn(name, args, kwargs=()):
         a = args[0].single_atom()
         if is_integer_form(args[0]):
             return args[0]         # already a whole number: a count, an index, an integer quotient of whole numbers
+    if name == "full" and len(args) == 2 and isinstance(args[1], Form) and isinstance(args[0], Form) and not [k for k, _v in kwargs if k != "dtype"]:
+        return args[1] * mk_fn("ones", [args[0]])          # an array filled with one value
     if name in ("fft", "ifft") and kwargs:
         # the transform acts on the last axis unless told otherwise: an explicit axis=-1 says nothing new
         kwargs = [(k, v) for k, v in kwargs if not (k == "axis" and isinstance(v, Form) and v.rational() == -1)]
